@@ -11,6 +11,7 @@ def gen_cases(rng, tier):
     for i in range(n):
         data, nodes, lits = S.gen_typed_data(rng, n_iri=rng.randint(2, 5), n_bn=rng.randint(0, 1), n_lit=rng.randint(0, 2), n_triples=rng.randint(2, 12))
         shapes = S.gen_shapes(rng, nodes, lits, n_shapes=rng.randint(2, 7))
+        S.add_templates(rng, shapes, nodes, lits)
         cases.append({"shapes": shapes, "sg": S.shapes_to_rdf(shapes), "data": data, "opts": {}})
     return cases
 
